@@ -95,6 +95,9 @@ def unfold_closure(exprs, depth=None):
             inst = _INST_CACHE.get(app.get_id())
             if inst is None:
                 inst = fn.instance(app.children())
+                li = fn.lemma_instance(app)
+                if li is not None:
+                    inst = z3.And(inst, li)
                 _INST_CACHE[app.get_id()] = inst
                 _INST_KEEP.append(app)
             out.append(inst)
@@ -102,6 +105,14 @@ def unfold_closure(exprs, depth=None):
         if not new:
             break
         frontier = new
+    # applications left un-unfolded at the depth limit still get their lemma facts
+    for app in spec_apps(frontier):
+        if app.get_id() in done or _has_bound_var(app):
+            continue
+        done.add(app.get_id())
+        li = _BY_DECL[app.decl().name()].lemma_instance(app)
+        if li is not None:
+            out.append(li)
     return out
 
 
@@ -127,8 +138,10 @@ def _ann_kind(a):
 
 
 class SpecFn(object):
-    def __init__(self, fn):
+    def __init__(self, fn, lemma=None):
         self.fn = fn
+        self.lemma = lemma          # lambda result, *params -> SBool : a property of every application,
+                                    # proved once by induction over the definition (lemma_obligation)
         self.name = fn.__name__
         src = textwrap.dedent(inspect.getsource(fn))
         mod = ast.parse(src)
@@ -188,6 +201,60 @@ class SpecFn(object):
             _BY_DECL[self._decl.name()] = self
         return self._decl
 
+    def lemma_instance(self, app):
+        if self.lemma is None:
+            return None
+        env = self._env(app.children())
+        vals = [env[nm] for nm, _ in self.params]
+        return _be(self.lemma(self._unpack(app), *vals))
+
+    def lemma_obligation(self):
+        """(hyps, goal) of the induction step: the lemma holds for the body if it holds for every
+        spec application inside the body (sound for terminating definitions)"""
+        zparams = []
+        for (nm, k), srt in zip(self.params, [None] * len(self.params)):
+            pass
+        sorts = self._sorts()
+        zargs = [z3.Const("ind!%s!%d" % (self.name, i), srt) for i, srt in enumerate(sorts)]
+        env = self._env(zargs)
+        saved = sym.drain_facts()
+        body = _Translator(self).block(self.node.body, env)
+        facts = sym.drain_facts()
+        sym.PENDING_FACTS.extend(saved)
+        packed = self._pack(body)
+        vals = [env[nm] for nm, _ in self.params]
+        goal = _be(self.lemma(self._unpack(packed), *vals))
+        hyps = list(facts)
+        for (nm, k) in self.params:
+            if k in ("Bytes", "IntList", "PairList"):
+                hyps.append(env[nm].len_e() >= 0)
+        for app in spec_apps([packed]):
+            f2 = _BY_DECL[app.decl().name()]
+            li = f2.lemma_instance(app)
+            if li is not None:
+                hyps.append(li)
+        return hyps, goal
+
+    def _env(self, zargs):
+        env = {}
+        it = iter(zargs)
+        for (nm, k) in self.params:
+            if k == "int":
+                env[nm] = SInt(next(it))
+            elif k == "bool":
+                env[nm] = SBool(next(it))
+            elif k in ("Bytes", "IntList"):
+                a = next(it); n = next(it)
+                env[nm] = SSeq(n, sym.bytes_get(a) if k == "Bytes" else (lambda a: lambda i: SInt(z3.Select(a, i)))(a), kind="bytes" if k == "Bytes" else "list", base=(nm, a, n))
+            elif k == "PairList":
+                a = next(it); b = next(it); n = next(it)
+                env[nm] = SSeq(n, (lambda a, b: lambda i: (SInt(z3.Select(a, i)), SInt(z3.Select(b, i))))(a, b), kind="list", base=(nm, a, b, n))
+            elif k == "IntSet":
+                env[nm] = SSet(next(it))
+            elif k == "IntSeq":
+                env[nm] = sym.ZSeq(next(it))
+        return env
+
     def instance(self, zargs):
         """the defining equation instantiated at the given z3 argument terms"""
         env = {}
@@ -199,7 +266,7 @@ class SpecFn(object):
                 env[nm] = SBool(next(it))
             elif k in ("Bytes", "IntList"):
                 a = next(it); n = next(it)
-                env[nm] = SSeq(n, (lambda a: lambda i: SInt(z3.Select(a, i)))(a), kind="bytes" if k == "Bytes" else "list", base=(nm, a, n))
+                env[nm] = SSeq(n, sym.bytes_get(a) if k == "Bytes" else (lambda a: lambda i: SInt(z3.Select(a, i)))(a), kind="bytes" if k == "Bytes" else "list", base=(nm, a, n))
             elif k == "PairList":
                 a = next(it); b = next(it); n = next(it)
                 env[nm] = SSeq(n, (lambda a, b: lambda i: (SInt(z3.Select(a, i)), SInt(z3.Select(b, i))))(a, b), kind="list", base=(nm, a, b, n))
@@ -207,8 +274,12 @@ class SpecFn(object):
                 env[nm] = SSet(next(it))
             elif k == "IntSeq":
                 env[nm] = sym.ZSeq(next(it))
+        saved = sym.drain_facts()
         body = _Translator(self).block(self.node.body, env)
-        return self.decl()(*zargs) == self._pack(body)
+        facts = sym.drain_facts()
+        sym.PENDING_FACTS.extend(saved)
+        eq = self.decl()(*zargs) == self._pack(body)
+        return z3.And(eq, *facts) if facts else eq
 
     def _pack(self, v):
         if self.ret == "int":
@@ -262,26 +333,13 @@ class SpecFn(object):
         return self._unpack(self.decl()(*self._zargs(args)))
 
 
-def spec(fn):
-    return SpecFn(fn)
+def spec(fn=None, lemma=None):
+    if fn is None:
+        return lambda f: SpecFn(f, lemma)
+    return SpecFn(fn, lemma)
 
 
-class SSet(sym.SVal):
-    """Set of ints as Array Int->Bool."""
-    __slots__ = ("e",)
-
-    def __init__(self, e):
-        self.e = e
-
-    def contains(self, x):
-        return SBool(z3.Select(self.e, _ie(x)))
-
-    def add(self, x):
-        return SSet(z3.Store(self.e, _ie(x), z3.BoolVal(True)))
-
-    def __eq__(self, o):
-        return SBool(self.e == (o.e if isinstance(o, SSet) else set_const(o)))
-    __hash__ = None
+SSet = sym.SSet
 
 
 EMPTY_SET = None
@@ -292,10 +350,7 @@ def empty_set():
 
 
 def set_const(xs):
-    e = z3.K(z3.IntSort(), z3.BoolVal(False))
-    for x in xs:
-        e = z3.Store(e, z3.IntVal(x), z3.BoolVal(True))
-    return e
+    return SSet.of(xs).e
 
 
 _CONST_ARRAYS = {}
@@ -448,7 +503,7 @@ class _Translator(object):
                 a, b = args
                 c = (a <= b) if f is min else (a >= b)
                 return sym.merge(_be(c), a, b)
-            if isinstance(f, type(SSet.add)) or getattr(f, "__self__", None) is not None and isinstance(f.__self__, SSet):
+            if f is sym.set_add or isinstance(getattr(f, "__self__", None), SSet):
                 return f(*args)
             if not any(sym.is_sym(a) for a in args):
                 return f(*args)
@@ -469,3 +524,13 @@ class _Translator(object):
                 r = a in b
             return sym.Not(r) if isinstance(op, ast.NotIn) else r
         raise Unsupported("spec comparison %s" % type(op).__name__)
+
+
+def lemma_obligations():
+    """induction obligations of every spec function that has a lemma and was used symbolically"""
+    out = []
+    for fn in _REGISTRY.values():
+        if fn.lemma is not None and fn._decl is not None:
+            hyps, goal = fn.lemma_obligation()
+            out.append((fn.name, hyps, goal))
+    return out
